@@ -189,3 +189,25 @@ def scanFrom (C : Codec) (fid : Nat) (f : ByteArray) (block off validEnd : Nat) 
 def scan (C : Codec) (fid : Nat) (f : ByteArray) : ScanRes := scanFrom C fid f 0 0 0 (f.size + 1)
 
 end XixiKV.Frame
+
+namespace XixiKV.Frame
+
+/-- number of chunks `restChunks` produces for `n` bytes (pure geometry, data independent) -/
+def restCount (n : Nat) : Nat → Nat
+  | 0 => 0
+  | fuel+1 => if n ≤ BS - H then 1 else 1 + restCount (n - (BS - H)) fuel
+
+/-- number of chunks of a record of `n > 0` bytes whose first chunk starts at in-block offset `o` -/
+def recCount (o n : Nat) : Nat :=
+  if n ≤ BS - o - H then 1 else 1 + restCount (n - (BS - o - H)) n
+
+/-- bytes a record of `n` payload bytes occupies (headers included, padding excluded) -/
+def occupied (o n : Nat) : Nat := if n = 0 then 0 else recCount o n * H + n
+
+/-- pure-arithmetic version of `writeToBuf`'s position/next-state computation for a file of
+    `fsize` bytes and a payload of `n` bytes: (block, off, size, new file size) -/
+def geom (fsize n : Nat) : Nat × Nat × Nat × Nat :=
+  let o := fsize % BS
+  (normB (fsize / BS) o, normO o, occupied (normO o) n, fsize + padOf o + occupied (normO o) n)
+
+end XixiKV.Frame
